@@ -157,6 +157,7 @@ PROPS["C01"] = {
         Job("soyhtml", "H_dataref", "0..5,0..8", workers=8),
         Job("soyhtml", "H_datarefChain", "0..5,0..5,-1..5,0..12", workers=16),
         Job("soyhtml", "H_collFuncs", "", workers=8),
+        Job("soyhtml", "H_strContains", "0..3,0..2", workers=8),
         Job("soyhtml", "H_func", "0..13,0..3,0..8,0..8,0..2", workers=16, maxsteps=400000, hang_timeout=4.0, allow_unsupported=(r"math\.Pow\(symbolic\)",)),
         Job("parse", "H_minus", "false", workers=4),
         Job("parse", "H_minus", "true", workers=4),
